@@ -280,7 +280,19 @@ static bool build(const shape* sh, pv_rng* r, job* j, nset* S) {
     case A_LOAD: {
         j->buf32 = malloc(32);
         pv_m_image(&m, j->buf32);
-        if (sh->path == P_FORMAT) j->buf32[pv_randn(r, 8)] ^= 0x20;
+        if (sh->path == P_FORMAT) {
+            /* FORMAT is one status with five reasons, and the image is refused at a different depth for each: header, reserved bit of
+             * the feature field, excess bits of the last secret byte, the extra byte, the footer nibble.  For all but the first the
+             * library may already have copied the 19 secret bytes somewhere (a damaged image is still somebody's seed) */
+            static unsigned kind; unsigned k = kind++ % 5;
+            if (k == 0) j->buf32[pv_randn(r, 8)] ^= 0x20;
+            else if (k == 1) j->buf32[9] |= 0x80;
+            else if (k == 2) j->buf32[28] |= (uint8_t)(0x40 << pv_randn(r, 2));
+            else if (k == 3) j->buf32[29] ^= (uint8_t)(1u << pv_randn(r, 8));
+            else j->buf32[31] ^= (uint8_t)(0x10 << pv_randn(r, 4));
+            pv_countf(1, "load.format_reason.%s", k == 0 ? "header" : k == 1 ? "reserved-feature-bit" : k == 2 ? "secret-excess-bits" : k == 3 ? "extra-byte" : "footer");
+            add_windows(S, N_SECRET, j->buf32 + 10, 19, 8);
+        }
         else if (sh->path == P_CHECKSUM) j->buf32[30] ^= 1;
         else if (sh->path == P_UNSUPPORTED || sh->path == P_OK || sh->path == P_MEMORY) { }
         else return false;
@@ -314,6 +326,10 @@ static bool build(const shape* sh, pv_rng* r, job* j, nset* S) {
         if (sh->path != P_NUM_WORDS) add_coeffs(S, d, sh->path == P_CHECKSUM ? d : c);
         if (sh->path != P_NUM_WORDS && sh->path != P_LANG) add_wordptrs(S, L, d);
         if (sh->path == P_OK || sh->path == P_UNSUPPORTED) { add_windows(S, N_SECRET, m.secret, 19, 8); add_secret_transforms(S, m.secret, 19); }
+        if (sh->path == P_CHECKSUM) {       /* the bits of a mistyped phrase are still (all but ten of) somebody's secret: what the 16 words unpack to */
+            unsigned u[16]; memcpy(u, d, sizeof u); u[1] ^= j->coin; pv_mseed w; pv_m_unpack(u, &w);
+            add_windows(S, N_SECRET, w.secret, 19, 8); add_secret_transforms(S, w.secret, 19);
+        }
         return true; }
     }
     return false;
